@@ -4,20 +4,28 @@ spec/MeshFile.tla     abstract mesh document, writer grammar Lines(Doc), parser 
 spec/MeshFileIni.tla  PropertyMap (INI) tree, dump grammar, verdict of line mutations
 spec/MeshFileBin.tla  Adjacency::Graph serialisation layout, truncated buffers
 harness/c11_meshfile.cpp (std + asan builds), lib/c11_meshtok.py (independent tokenizer for direction V)
+
+G  TLC generates documents / trees / graphs and every single structured mutation with its verdict; the harness
+   replays them into MeshFileReader / MeshFileWriter / PropertyMap / Graph (mutations under ASan+UBSan).
+V  every shipped mesh file is parsed, written, re-parsed, re-written (second write == first write, structure
+   equal) and the written text is compared with the original by an independent tokenizer; structured
+   count/dim/index mutations of the shipped files must be rejected; seeded byte-level mutations are judged by Total.
 """
-import os, json, glob, random, re, shutil
+import os, json, glob, random, re, sys
 import concurrent.futures as cf
 import vlib
+import c11_meshtok as mt
 
 LEVEL = "model_checking"
 GEN = os.path.join(vlib.BUILD, "gen", "C11")
 MESHDIR = os.path.join(vlib.REPO, "data", "meshes")
 SHAPES = [("hypercube", 2), ("simplex", 2), ("hypercube", 3), ("simplex", 3)]
 REJECT = ("syntax", "grammar", "content")
+ASAN_ENV = {"ASAN_OPTIONS": "detect_leaks=0:abort_on_error=0:exitcode=1:max_allocation_size_mb=1024:allocator_may_return_null=0"}
 
 
 # ------------------------------------------------------------------------------------------------------------------
-# G: documents and structured mutations generated by TLC
+# TLC generation
 # ------------------------------------------------------------------------------------------------------------------
 def tla_set(xs):
     return "{" + ", ".join(xs) + "}"
@@ -41,39 +49,51 @@ def mesh_cfg(fam, dim, cells, psets, ptn, indents, muts):
                tla_set("TRUE" if b else "FALSE" for b in indents), "TRUE" if muts else "FALSE"))
 
 
-def mesh_jobs(tier):
+def tlc_jobs(tier):
+    """(module, name, cfg text)"""
     jobs = []
     for fam, dim in SHAPES:
+        tag = "%s%d" % (fam, dim)
         if tier == "thorough":
-            # every document, every mutation
-            for n in (1, 2):
-                jobs.append((fam, dim, "all%d" % n, mesh_cfg(fam, dim, [n], part_sets("all"), [0, 1, 2], [True, False], True)))
+            for n in (1, 2):   # every document, every mutation
+                jobs.append(("MeshFile", "%s all n=%d" % (tag, n), mesh_cfg(fam, dim, [n], part_sets("all"), [0, 1, 2], [True, False], True)))
         else:
-            jobs.append((fam, dim, "docs", mesh_cfg(fam, dim, [1, 2], part_sets("all"), [0, 1, 2], [True, False], False)))
-            jobs.append((fam, dim, "muts", mesh_cfg(fam, dim, [2], part_sets("rich"), [2], [True], True)))
-            jobs.append((fam, dim, "muts1", mesh_cfg(fam, dim, [1], part_sets([("B", "D")]), [1], [False], True)))
+            jobs.append(("MeshFile", tag + " docs", mesh_cfg(fam, dim, [1, 2], part_sets("all"), [0, 1, 2], [True, False], False)))
+            if dim == 2:
+                jobs.append(("MeshFile", tag + " muts n=2", mesh_cfg(fam, dim, [2], part_sets("rich"), [2], [True], True)))
+                jobs.append(("MeshFile", tag + " muts n=1", mesh_cfg(fam, dim, [1], part_sets([("B", "D")]), [1], [False], True)))
+            else:
+                jobs.append(("MeshFile", tag + " muts n=1", mesh_cfg(fam, dim, [1], part_sets("rich"), [2], [True], True)))
+    ini = "SPECIFICATION Spec\nCONSTANTS Variants = %s KeySets = %s SecShapes = %s Muts = TRUE\nINVARIANTS Sane Emit\nCHECK_DEADLOCK FALSE\n"
+    if tier == "thorough":
+        for v in range(3):
+            jobs.append(("MeshFileIni", "all trees var=%d" % v, ini % ("{%d}" % v, "SUBSET {1, 2, 3}", "0..4")))
+    else:
+        jobs.append(("MeshFileIni", "quick", ini % ("{0}", "{{}, {1, 3}, {1, 2, 3}}", "{0, 3, 4}")))
+        jobs.append(("MeshFileIni", "quick2", ini % ("{1}", "{{2}}", "{1, 2}")))
+    bn = "SPECIFICATION Spec\nCONSTANTS MaxD = %d MaxI = %d MaxDeg = %d\nINVARIANTS CsrValid Emit\nCHECK_DEADLOCK FALSE\n"
+    jobs.append(("MeshFileBin", "graphs", bn % ((3, 3, 2) if tier == "thorough" else (2, 3, 2))))
     return jobs
 
 
-def run_tlc_jobs(chk, module, jobs, workers=None):
-    """jobs: list of (name, cfg text); returns list of printed values per job"""
+def run_tlc_jobs(chk, jobs, workers=None):
     os.makedirs(GEN, exist_ok=True)
-    out = []
     names = []
-    for k, (name, text) in enumerate(jobs):
+    for k, (module, name, text) in enumerate(jobs):
         cfg = "gen_%s_%d_%d.cfg" % (module, os.getpid(), k)
         with open(os.path.join(vlib.SPEC, cfg), "w") as f:
             f.write(text)
         names.append(cfg)
+    out = []
     try:
-        with cf.ThreadPoolExecutor(max_workers=workers or min(len(jobs), max(2, vlib.NCPU // 2))) as ex:
-            futs = [ex.submit(vlib.tlc, module, cfg, timeout=3000, xmx="3g") for cfg in names]
-            for (name, _), f in zip(jobs, futs):
+        with cf.ThreadPoolExecutor(max_workers=workers or 5) as ex:
+            futs = [ex.submit(vlib.tlc, module, cfg, timeout=3000, xmx="3g") for (module, _, _), cfg in zip(jobs, names)]
+            for (module, name, _), f in zip(jobs, futs):
                 r = f.result()
                 chk.add_tlc(r, "%s %s" % (module, name))
                 if r.violation:
                     chk.model_violation(r, "%s invariant (%s)" % (module, name))
-                out.append(r.printed)
+                out.append((module, r.printed))
     finally:
         for cfg in names:
             try:
@@ -83,47 +103,337 @@ def run_tlc_jobs(chk, module, jobs, workers=None):
     return out
 
 
-def gen_mesh_cases(chk):
-    jobs = mesh_jobs(chk.tier)
-    printed = run_tlc_jobs(chk, "MeshFile", [("%s%d %s" % (f, d, nm), cfg) for f, d, nm, cfg in jobs])
-    docs, muts = {}, []
-    for pr in printed:
-        for v in pr:
-            if v["t"] == "doc":
-                docs[v["id"]] = v
-            else:
-                muts.append(v)
-    docs_path = os.path.join(GEN, "docs_%d.ndjson" % os.getpid())
-    with open(docs_path, "w") as f:
-        for d in docs.values():
-            f.write(json.dumps({k: d[k] for k in ("id", "fam", "dim", "indent", "in", "out")}, separators=(",", ":")) + "\n")
-    cases = list(docs.values())
-    seen = set()
-    for m in muts:
-        key = (m["id"], m["m"]["kind"], m["m"]["op"], m["m"]["at"], m["m"]["text"])
-        if key in seen:
+# ------------------------------------------------------------------------------------------------------------------
+# shipped files
+# ------------------------------------------------------------------------------------------------------------------
+CHART_FOR = [("screws_2d_mesh", "smaller", "screws_2d_chart_bezier_24_28_smaller.xml"),
+             ("screws_2d_mesh", "", "screws_2d_chart_bezier_24_28.xml"),
+             ("screws_3d_mesh", "", "screws_3d_chart_surfacemesh_7200_7200.xml")]
+# mesh parts of this file refer to a chart that is not shipped (external surface): cannot be linked, used for fuzzing only
+UNLINKABLE = {"scalexa_gendie_simple.xml"}
+
+
+def file_info(path):
+    txt = open(path, errors="replace").read()
+    m = re.search(r'<Mesh\s+type="conformal:(\w+):(\d):(\d)"', txt) or re.search(r'mesh="conformal:(\w+):(\d):(\d)"', txt)
+    if m:
+        fam, dim = m.group(1), int(m.group(2))
+    else:
+        fam, dim = ("hypercube", 3) if re.search(r"<(Sphere|SurfaceMesh|Extrude)", txt) else ("hypercube", 2)
+    return {"path": path, "name": os.path.basename(path), "fam": fam, "dim": dim, "bytes": len(txt),
+            "surfacemesh": "<SurfaceMesh" in txt, "has_mesh": "<Mesh " in txt}
+
+
+def shipped(tier):
+    fs = [file_info(p) for p in sorted(glob.glob(os.path.join(MESHDIR, "*.xml")))]
+    if not fs:
+        raise vlib.MachineryError("no mesh files under " + MESHDIR)
+    lim = 4000000 if tier == "thorough" else 130000    # quick: 2D all, 3D up to ~400 cells
+    return [f for f in fs if f["bytes"] <= lim]
+
+
+def file_cases(files):
+    cases = []
+    byname = {f["name"]: f for f in files}
+    for f in files:
+        if f["name"] in UNLINKABLE:
             continue
-        seen.add(key)
-        cases.append({"t": "mut", "docs": docs_path, "id": m["id"], "m": m["m"]})
-    return cases, docs_path
+        c = {"t": "file", "name": f["name"], "fam": f["fam"], "dim": f["dim"], "surfacemesh": f["surfacemesh"],
+             "outpath": os.path.join(GEN, "out_%d_%s" % (os.getpid(), f["name"]))}
+        partner = None
+        for pre, must, chart in CHART_FOR:
+            if f["name"].startswith(pre) and must in f["name"]:
+                partner = chart
+                break
+        if partner:
+            pp = os.path.join(MESHDIR, partner)
+            if not os.path.exists(pp) or (partner not in byname and os.path.getsize(pp) > 2000000 and False):
+                continue
+            c["paths"] = [pp, f["path"]]
+            c["surfacemesh"] = c["surfacemesh"] or "surfacemesh" in partner
+        else:
+            c["path"] = f["path"]
+        cases.append(c)
+    return cases
 
 
-def mesh_sig(c, r):
-    if c["t"] == "doc":
-        return {"t": "doc", "fam": c["fam"], "dim": c["dim"], "outcome": r.get("outcome", "mismatch")}
-    m = c["m"]
-    return {"t": "mut", "kind": m["kind"], "exp": m["v"], "got": r.get("got_cls") or r.get("outcome", "mismatch"),
-            "shape": c["id"].split("-")[0] + c["id"].split("-")[1]}
+def tok_compare(chk, c):
+    """direction V, independent of FEAT: the text FEAT wrote denotes the same document as the shipped file(s)"""
+    paths = c.get("paths") or [c["path"]]
+    try:
+        orig = mt.canon([mt.tokenize(open(p, errors="replace").read()) for p in paths])
+    except Exception as e:
+        raise vlib.MachineryError("tokenizer cannot read shipped file %s: %r" % (paths, e))
+    try:
+        out = mt.canon([mt.tokenize(open(c["outpath"], errors="replace").read())], check_counts=True)
+        d = mt.compare(orig, out) or (("chart " + mt.chart_diff(orig, out)) if mt.chart_diff(orig, out) else None)
+    except Exception as e:
+        d = "written text violates the format: %r" % (e,)
+    if d:
+        chk.violation({"t": "file", "file": c["name"], "got": "tokenizer_diff"}, "written text of %s differs from the shipped file: %s" % (c["name"], d),
+                      {"kind": "tok", "case": c})
+    return d is None
+
+
+def smut_cases(files, per_file, rng):
+    cases = []
+    for f in files:
+        try:
+            sites = mt.mutation_sites(open(f["path"], errors="replace").read())
+        except Exception as e:
+            raise vlib.MachineryError("tokenizer cannot read %s: %r" % (f["path"], e))
+        # one of every kind first, then a seeded sample
+        bykind = {}
+        for s in sites:
+            bykind.setdefault(s[0], []).append(s)
+        pick = [rng.choice(v) for k, v in sorted(bykind.items())]
+        rest = [s for s in sites if s not in pick]
+        rng.shuffle(rest)
+        for kind, op, ln, text in (pick + rest)[:max(per_file, len(pick))]:
+            cases.append({"t": "smut", "path": f["path"], "name": f["name"], "fam": f["fam"], "dim": f["dim"], "kind": kind, "op": op, "at": ln, "text": text})
+    return cases
+
+
+def fuzz_cases(files, docs, total, rng):
+    bases = [f for f in files if f["bytes"] <= 40000]
+    os.makedirs(GEN, exist_ok=True)
+    # a few generated documents as well (parent topology, both indentation modes)
+    for k, d in enumerate(docs):
+        p = os.path.join(GEN, "fuzzbase_%d_%d.xml" % (os.getpid(), k))
+        with open(p, "w") as f:
+            f.write("\n".join(d["in"]) + "\n")
+        bases.append({"path": p, "name": "gen:" + d["id"], "fam": d["fam"], "dim": d["dim"], "bytes": 0})
+    cases = []
+    per = max(1, total // len(bases))
+    for b in bases:
+        same = [x for x in bases if (x["fam"], x["dim"]) == (b["fam"], b["dim"]) and x is not b] or [b]
+        for k in range(per):
+            cases.append({"t": "fuzz", "path": b["path"], "name": b["name"], "path2": rng.choice(same)["path"], "fam": b["fam"], "dim": b["dim"],
+                          "seed": rng.randrange(1 << 40)})
+    return cases
+
+
+# ------------------------------------------------------------------------------------------------------------------
+# judgement
+# ------------------------------------------------------------------------------------------------------------------
+def classify(r):
+    """outcome class of an abnormal end: assert (reported by FEAT), resource (allocation refused), or the raw outcome"""
+    oc = r.get("outcome")
+    err = r.get("stderr") or ""
+    if oc == "abort" and "ASSERTION FAILED" in err:
+        return "assert"
+    if oc == "sanitizer" and ("exceeds maximum supported size" in err or "allocation-size-too-big" in err or "out of memory" in err
+                              or "out-of-memory" in err):
+        return "resource"
+    return oc
+
+
+def san_kind(r):
+    """short description of a sanitizer report: error type and the first FEAT function on the stack"""
+    err = r.get("stderr") or ""
+    m = re.search(r"AddressSanitizer: ([\w-]+)", err) or re.search(r"runtime error: ([^\n]{0,60})", err)
+    kind = m.group(1).strip() if m else ""
+    kind = re.sub(r"0x[0-9a-f]+|\d+", "N", kind)
+    w = re.search(r" in (?:\w+ )?(FEAT::[\w:]+)", err)
+    return (kind + " @ " + w.group(1)) if w else kind
+
+
+def sig(c, r):
+    s = sig0(c, r)
+    if r.get("outcome") == "sanitizer":
+        s["san"] = san_kind(r)
+    return s
+
+
+def sig0(c, r):
+    t = c["t"]
+    got = r.get("got_cls") or r.get("cls") or classify(r) or "mismatch"
+    if t == "doc":
+        return {"t": "doc", "shape": "%s%d" % (c["fam"], c["dim"]), "got": got}
+    if t == "mut":
+        return {"t": "mut", "kind": c["m"]["kind"], "exp": c["m"]["v"], "got": got}
+    if t == "file":
+        return {"t": "file", "file": c["name"], "got": got, "surfacemesh": bool(c.get("surfacemesh"))}
+    if t == "smut":
+        return {"t": "smut", "kind": c["kind"], "got": got}
+    if t == "fuzz":
+        return {"t": "fuzz", "got": got}
+    if t == "ini":
+        return {"t": "ini", "kind": c["kind"], "exp": c["v"], "got": got}
+    if t == "graph":
+        return {"t": "graph", "nd": c["nd"], "cut": c["cut"] >= 0, "got": got}
+    return {"t": t, "got": got}
+
+
+def key(c):
+    t = c["t"]
+    if t == "doc":
+        return "doc:" + c["id"]
+    if t == "mut":
+        return json.dumps(["mut", c["id"], c["m"]["kind"], c["m"]["op"], c["m"]["at"], c["m"]["text"]])
+    if t in ("file",):
+        return "file:" + c["name"]
+    if t == "smut":
+        return json.dumps(["smut", c["name"], c["kind"], c["at"], c["text"]])
+    if t == "fuzz":
+        return json.dumps(["fuzz", c["name"], c["seed"]])
+    return json.dumps(c, sort_keys=True)
+
+
+FUZZ_ALLOWED = ("assert", "resource")   # abnormal ends that are a *report*: FEAT assertion message / refused allocation
+
+
+def judge(chk, cases, results, harness, stats):
+    for c, r in zip(cases, results):
+        t = c["t"]
+        chk.count(key(c), True)
+        if r.get("ok") is True:
+            stats[t + ":" + (r.get("cls") or "ok")] = stats.get(t + ":" + (r.get("cls") or "ok"), 0) + 1
+            continue
+        cls = classify(r)
+        # spec: which abnormal ends are allowed
+        if t == "fuzz" and cls in FUZZ_ALLOWED:
+            stats["fuzz:" + cls] = stats.get("fuzz:" + cls, 0) + 1
+            continue
+        if t == "smut" and cls == "assert":
+            # rejected by an assertion instead of the documented exception: reported, but not the documented class
+            pass
+        if t == "graph" and c["cut"] >= 0 and cls == "assert":
+            stats["graph:refused"] = stats.get("graph:refused", 0) + 1
+            continue
+        s = sig(c, r)
+        desc = r.get("why") or ("outcome %s: %s" % (cls, (r.get("stderr") or "")[-500:]))
+        chk.violation(s, desc, {"kind": "case", "harness": harness, "case": c, "result": r})
 
 
 # ------------------------------------------------------------------------------------------------------------------
 def run(chk):
     os.makedirs(GEN, exist_ok=True)
+    rng = random.Random(vlib.seed())
     std, = vlib.build(["c11_meshfile"])
-    cases, docs_path = gen_mesh_cases(chk)
-    if not cases:
-        raise vlib.MachineryError("generator produced no cases")
-    res = vlib.run_cases(std, cases, tmo=20)
-    vlib.judge_results(chk, cases, res, mesh_sig, harness="c11_meshfile",
-                       keyf=lambda c: c["id"] if c["t"] == "doc" else json.dumps([c["id"], c["m"]["kind"], c["m"]["at"], c["m"]["text"]]))
-    chk.traces = len(cases)
+    asan, = vlib.build(["c11_meshfile"], variant="asan")
+    thorough = chk.tier == "thorough"
+
+    # ---- G: generation -------------------------------------------------------------------------------------------
+    printed = run_tlc_jobs(chk, tlc_jobs(chk.tier), workers=6 if thorough else 5)
+    docs, muts, ini, graphs = {}, [], [], []
+    for module, pr in printed:
+        for v in pr:
+            if module == "MeshFile":
+                if v["t"] == "doc":
+                    docs[v["id"]] = v
+                else:
+                    muts.append(v)
+            elif module == "MeshFileIni":
+                ini.append(v)
+            else:
+                graphs.append(v)
+    if not docs or not muts or not ini or not graphs:
+        raise vlib.MachineryError("a generator produced no cases (docs %d, mutations %d, ini %d, graphs %d)" % (len(docs), len(muts), len(ini), len(graphs)))
+    docs_path = os.path.join(GEN, "docs_%d.ndjson" % os.getpid())
+    with open(docs_path, "w") as f:
+        for d in docs.values():
+            f.write(json.dumps({k: d[k] for k in ("id", "fam", "dim", "indent", "in", "out")}, separators=(",", ":")) + "\n")
+    mut_cases, seen = [], set()
+    for m in muts:
+        c = {"t": "mut", "docs": docs_path, "id": m["id"], "m": m["m"]}
+        k = key(c)
+        if k not in seen:
+            seen.add(k)
+            mut_cases.append(c)
+    # de-duplicate ini cases (different trees / mutations can give the same text)
+    ini_cases, seen = [], set()
+    for v in ini:
+        k = json.dumps([v["in"], v["v"]])
+        if k not in seen:
+            seen.add(k)
+            ini_cases.append(v)
+    graph_cases = graphs + [{"t": "graph", "ctor": "default", "nd": 0, "ni": 0, "ptr": [0], "idx": [], "words": ["F3ADJGRP", 48, 0, 0, 0, 0], "cut": -1}]
+
+    # ---- V: shipped files ---------------------------------------------------------------------------------------------
+    files = shipped(chk.tier)
+    fcases = file_cases(files)
+    scases = smut_cases(files, 150 if thorough else 14, rng)
+    fz_docs = [docs[k] for k in sorted(docs) if k.endswith("-2-i-p") or k.endswith("BC-2-f-e")][:8]
+    zcases = fuzz_cases(files, fz_docs, 150000 if thorough else 10000, rng)
+
+    stats = {}
+    try:
+        # documents and shipped files: plain build; every mutant: ASan + UBSan build
+        batches = [(std, list(docs.values()) + fcases, 120, None),
+                   (asan, mut_cases + scases + ini_cases + graph_cases, 20, ASAN_ENV),
+                   (asan, zcases, 20, ASAN_ENV)]
+        for binary, cases, tmo, env in batches:
+            res = vlib.run_cases(binary, cases, tmo=tmo, env=env)
+            judge(chk, cases, res, "c11_meshfile" + (" (asan)" if binary == asan else ""), stats)
+            if cases and cases[0]["t"] == "doc":
+                nok = 0
+                for c, r in zip(cases, res):
+                    if c["t"] == "file" and r.get("ok") is True:
+                        nok += tok_compare(chk, c)
+                chk.extra["shipped_files_roundtrip_and_tokenizer_ok"] = nok
+    finally:
+        keep = docs_path if any((rp or {}).get("case", {}).get("t") == "mut" for _, _, rp in chk.violations) else None
+        for p in glob.glob(os.path.join(GEN, "*_%d*" % os.getpid())):
+            if p != keep:     # the documents of failing mutation cases stay for --replay
+                try:
+                    os.remove(p)
+                except OSError:
+                    pass
+
+    # summary of disagreements by signature (the replay file keeps only the first 50)
+    bysig = {}
+    for sg, desc, _ in chk.violations:
+        k = json.dumps({a: b for a, b in sg.items() if a != "file"}, sort_keys=True)
+        bysig.setdefault(k, [0, desc])[0] += 1
+    for k, (n, desc) in sorted(bysig.items()):
+        vlib.log("  [C11] %5d x %s :: %s" % (n, k, " ".join(desc.split())[:260]))
+
+    chk.traces = len(docs) + len(mut_cases) + len(ini_cases) + len(graph_cases) + len(fcases) + len(scases) + len(zcases)
+    chk.exhaustive = True
+    chk.extra.update({"documents": len(docs), "structured_mutations": len(mut_cases), "ini_cases": len(ini_cases), "graph_cases": len(graph_cases),
+                      "shipped_files": len(fcases), "shipped_structured_mutations": len(scases), "byte_level_mutants": len(zcases),
+                      "outcome_classes": dict(sorted(stats.items())),
+                      "mutation_kinds": sorted(set(c["m"]["kind"] for c in mut_cases))})
+    chk.rule = ("G: every state of spec/MeshFile.tla = (document, single structured mutation): documents = {quad, tria, hexa, tetra} x {1,2 cells} x "
+                "every set of <= 2 mesh parts of 5 kinds (vertex list / facet with own topology + chart + attribute / cell closure / cell closure with "
+                "topology and 2 attributes / duplicated vertex) x {0,1,2} partitions x indentation x topology=parent variant; mutations = truncation after "
+                "every line, delete/duplicate every counted line, delete every open/close line, +-1 on every declared count, size arity, every dim "
+                "attribute to every other value, mesh type strings, every vertex/element/mapping index to bound and -1, unknown markup / stray "
+                "terminator / stray content at every position, every attribute removed, unknown attribute, closed markup, token count / non-number / "
+                "trailing garbage for every token (quick: all documents round-trip, mutations of 5 rich documents per shape); likewise every "
+                "PropertyMap tree / line mutation of spec/MeshFileIni.tla and every graph / truncation of spec/MeshFileBin.tla.  V: shipped mesh files "
+                "(quick: <= 130 kB), a seeded sample of count/dim/index mutations per file, seeded byte-level mutants (VERIF_SEED).  distinct = "
+                "distinct (document id, mutation) / file / (file, seed)")
+    for c in mut_cases[len(mut_cases) // 3: len(mut_cases) // 3 + 3]:
+        chk.sample({"doc": c["id"], "mutation": c["m"]["kind"], "edit": [c["m"]["op"], c["m"]["at"], c["m"]["text"]], "verdict": c["m"]["v"], "line": c["m"]["el"]})
+    chk.assumptions = [
+        "real numbers of generated documents are dyadic with <= 3 fractional binary digits (printing with 6 significant digits is exact); for shipped files "
+        "reals are compared to the printed precision (relative 1e-5)",
+        "an application selects the mesh type from the root markup's mesh attribute (as tools/mesh2vtk etc. do); files whose type is not one of the four "
+        "conformal 2D/3D types count as rejected",
+        "a declared count is an allocation request: std::bad_alloc / std::length_error / a refused allocation (sanitizer max_allocation_size_mb=1024, "
+        "RLIMIT_AS 6 GB) is classified as `resource` and accepted as a rejection in the byte-level part (Total), not in the structured part",
+        "termination by a FEAT assertion message (XASSERT) counts as a report (DESIGN 3.3) in the byte-level part and for truncated graph buffers",
+        "Permutation has no serialisation API in the pinned tree; charts other than Circle/Sphere are covered only through the shipped files",
+    ]
+
+
+def replay(obj):
+    std, = vlib.build(["c11_meshfile"])
+    asan, = vlib.build(["c11_meshfile"], variant="asan")
+    bad = 0
+    for v in obj["violations"]:
+        rp = v.get("replay") or {}
+        if rp.get("kind") != "case":
+            continue
+        c = rp["case"]
+        if c["t"] == "mut" and not os.path.exists(c["docs"]):
+            print("document file of the run is gone; re-run the check to regenerate: " + c["docs"])
+            continue
+        binary = asan if "asan" in (rp.get("harness") or "") else std
+        r = vlib.run_cases(binary, [c], tmo=60, shards=1, env=ASAN_ENV if binary == asan else None)[0]
+        print(json.dumps({"case": sig(c, r), "result": r})[:1500])
+        if r.get("ok") is not True:
+            bad += 1
+    return 1 if bad else 0
